@@ -47,6 +47,7 @@ class FakeAMQPServer:
         self.dropped = []        # messages discarded (no DLX / unroutable)
         self.confirm_turns = 0   # loop turns between routing (and delivery) of a publish and its confirm
         self.settle_turns = 0    # loop turns a basic_ack/nack/reject call takes to return after the server acted on it
+        self.settle_delay = 0      # seconds a basic_ack/nack/reject call takes to drain after its frame has been written (slow connection)
         self.consume_ok_turns = 0  # loop turns between the first deliveries of a new consumer and the ConsumeOk reply reaching the caller
 
     def declare(self, name, arguments):
@@ -206,6 +207,8 @@ class FakeChannel:
         # caused by it may therefore reach the consumer callback first
         for _ in range(self.server.settle_turns):
             await asyncio.sleep(0)
+        if self.server.settle_delay:
+            await asyncio.sleep(self.server.settle_delay)
 
     def _settle(self, delivery_tag, requeue):
         loop = asyncio.get_running_loop()
